@@ -59,9 +59,16 @@ func runSolver(ctx context.Context, s solverSpec, scriptFile string, timeout int
 	secs = time.Since(t0).Seconds()
 	data, _ := os.ReadFile(of.Name())
 	out = string(data)
-	first := strings.TrimSpace(out)
-	if i := strings.IndexByte(first, '\n'); i >= 0 {
-		first = first[:i]
+	first := ""
+	for _, l := range strings.Split(out, "\n") {
+		l = strings.TrimSpace(l)
+		if l == "unsat" || l == "sat" || l == "unknown" || strings.Contains(l, "timeout") {
+			first = l
+			break
+		}
+		if strings.HasPrefix(l, "(error") && first == "" {
+			first = l
+		}
 	}
 	switch {
 	case first == "unsat":
